@@ -274,7 +274,8 @@ def apply_contract(run, st, name, args, ins, bindings=None):
     # result
     results = []
     rts = callee["results"]
-    hints = result_hints(c)
+    evh0 = Evaluator(run, st, pre_mem, env, phase="pre")
+    hints = result_hints(c, evh0)
     for i, rt in enumerate(rts):
         rname = "result" if len(rts) == 1 else "result%d" % i
         k = prog.kind(rt)
@@ -298,6 +299,12 @@ def apply_contract(run, st, name, args, ins, bindings=None):
                 raise Unsupported("conditional pointer result; use path-splitting ensures")
             else:
                 raise VerifError("contract of %s does not determine its pointer result (ensures result == ... / fresh(result))" % cname)
+        elif k == "slice" and h is not None and h[0] == "eq":
+            evh = Evaluator(run, st, pre_mem, env, phase="pre")
+            v = evh.ev(h[1], True)
+            if not isinstance(v, SRef):
+                raise VerifError("result hint of %s is not a slice" % cname)
+            results.append(v.sl)
         elif k == "slice":
             n = hints.get("len(" + rname + ")")
             if n is None:
@@ -363,11 +370,25 @@ def assigned_names(c):
     return names
 
 
-def result_hints(c):
-    """syntactic scan of ensures clauses of the form  result == e | fresh(result) | len(result) == n | isnil(result1) <==> e"""
+def active_conjuncts(ast, ev):
+    """conjuncts of an ensures clause that are active at this call: `C ==> body` is entered when C
+    evaluates (over the entry state) to the constant true, skipped when constant false"""
+    out = []
+    for cj in flatten_and(ast):
+        if cj[0] == "bin" and cj[1] == "==>":
+            c = ev.bool(("old", cj[2]))
+            if c is True:
+                out.extend(active_conjuncts(cj[3], ev))
+            continue
+        out.append(cj)
+    return out
+
+
+def result_hints(c, ev):
+    """scan of ensures clauses of the form  result == e | fresh(result) | len(result) == n | isnil(result1) <==> e"""
     hints = {}
     for lab, ast, txt in c.ensures:
-        for cj in flatten_and(ast):
+        for cj in active_conjuncts(ast, ev):
             if cj[0] == "bin" and cj[1] == "==":
                 a, b = cj[2], cj[3]
                 if a[0] == "id" and a[1].startswith("result"):
